@@ -30,6 +30,12 @@ pub struct Cfg {
     /// maximum heal rounds before declaring non-convergence (0 = 2N+3)
     #[serde(default)]
     pub heal_bound: usize,
+    /// 1: every row is a Person; 2: Person and Pet rows share the rooms
+    #[serde(default = "two")]
+    pub entities: usize,
+}
+fn two() -> usize {
+    2
 }
 
 #[derive(Clone, Debug, Serialize, Deserialize)]
@@ -72,6 +78,40 @@ struct Ctx {
     any_op: bool,
     /// acknowledged versions of each row name: row idx -> set of names acknowledged
     acked: BTreeMap<usize, BTreeSet<String>>,
+    /// (node, row id hex) -> signatures of the versions that node wrote itself (not received by a pull)
+    local_sigs: BTreeSet<(usize, String)>,
+    /// id (base64) of the row the current step mutated
+    last_written: Option<String>,
+    /// per node: row id (base64) -> signature stored after the previous step
+    sig_maps: Vec<BTreeMap<String, String>>,
+    /// (node, row id) whose stored version was ever replaced by the synchronisation path
+    synced_over: BTreeSet<(usize, String)>,
+    /// (node, row id) mutated locally by the current step
+    step_local: Option<(usize, String)>,
+    /// row id (base64) -> every text (name or nick) ever acknowledged for it
+    row_texts: BTreeMap<String, Vec<String>>,
+    /// simulated real time; a node's wall clock is now + offset[node] (skew and jumps)
+    now: i64,
+    offset: Vec<i64>,
+}
+
+fn sync_clocks(c: &mut Ctx) {
+    for i in 0..c.w.nodes.len() {
+        c.w.nodes[i].clock = c.now + c.offset[i];
+    }
+}
+
+fn step_dt(st: &Step) -> i64 {
+    match st {
+        Step::Create { dt, .. }
+        | Step::Update { dt, .. }
+        | Step::Nick { dt, .. }
+        | Step::RefAdd { dt, .. }
+        | Step::RefDel { dt, .. }
+        | Step::PetSet { dt, .. }
+        | Step::Delete { dt, .. } => *dt,
+        _ => 0,
+    }
 }
 
 fn ent_name(e: u8) -> &'static str {
@@ -135,6 +175,7 @@ pub fn generate(seed: u64, property: &str, thorough: bool) -> Trace {
             _ => rc.range(-1, 1) * DAY_MS,
         });
     }
+    let entities = 1 + rc.usize(2);
     let answer_bytes = *rc.pick(&[0usize, 0, 300, 700, 2000]);
     let write_buffer_length = *rc.pick(&[1usize, 2, 8, 1024]);
     let oracles: Vec<String> = match property {
@@ -186,7 +227,7 @@ pub fn generate(seed: u64, property: &str, thorough: bool) -> Trace {
         let live: Vec<usize> = (0..nrows).filter(|r| !deleted.contains(r)).collect();
         match k {
             0 => {
-                let ent = if rw.chance(1, 4) { 1 } else { 0 };
+                let ent = if entities > 1 && rw.chance(1, 4) { 1 } else { 0 };
                 steps.push(Step::Create {
                     node,
                     row: nrows,
@@ -312,6 +353,7 @@ pub fn generate(seed: u64, property: &str, thorough: bool) -> Trace {
         write_buffer_length,
         oracles,
         heal_bound: 0,
+        entities,
     };
     Trace {
         engine: "repl".into(),
@@ -339,6 +381,7 @@ pub fn directed(property: &str) -> Vec<Trace> {
             write_buffer_length: 1024,
             oracles: oracles.iter().map(|s| s.to_string()).collect(),
             heal_bound: 0,
+            entities: 2,
         })
         .unwrap(),
         steps: steps.iter().map(|s| serde_json::to_value(s).unwrap()).collect(),
@@ -548,6 +591,14 @@ pub fn execute(trace: &Trace, keep_log: bool) -> (crate::kit::RunReport, Vec<Str
         tokens: BTreeSet::new(),
         any_op: false,
         acked: BTreeMap::new(),
+        local_sigs: BTreeSet::new(),
+        last_written: None,
+        sig_maps: vec![],
+        synced_over: BTreeSet::new(),
+        step_local: None,
+        row_texts: BTreeMap::new(),
+        now: T0,
+        offset: cfg.skew.clone(),
     };
     if let Err(e) = setup(&mut c) {
         c.w.harness_error(format!("setup: {e}"));
@@ -564,6 +615,11 @@ pub fn execute(trace: &Trace, keep_log: bool) -> (crate::kit::RunReport, Vec<Str
         }
         if has(&c.cfg, "C11") {
             check_c11_all(&mut c);
+        }
+        if has(&c.cfg, "C17") {
+            if let Err(e) = update_sig_maps(&mut c) {
+                c.w.harness_error(format!("sig maps: {e}"));
+            }
         }
     }
     if c.w.report.harness_errors.is_empty() {
@@ -611,7 +667,8 @@ fn setup(c: &mut Ctx) -> Result<(), String> {
             keys[0],
             users.join(",")
         );
-        c.w.nodes[0].advance_clock(1);
+        c.now += 1;
+        sync_clocks(c);
         let r = c.w.nodes[0].mutate(&q, None)?;
         let v: serde_json::Value = serde_json::from_str(&r).map_err(|e| e.to_string())?;
         let rid = v["sys.Room"]["id"].as_str().ok_or("no room id")?.to_string();
@@ -653,6 +710,8 @@ fn up(c: &Ctx, node: usize) -> bool {
 }
 
 fn exec_step(c: &mut Ctx, st: &Step) -> Result<(), String> {
+    c.now += step_dt(st).max(0);
+    sync_clocks(c);
     match st {
         Step::Create { node, row, room, ent, text, dt } => {
             let node = *node % c.cfg.nodes;
@@ -667,7 +726,6 @@ fn exec_step(c: &mut Ctx, st: &Step) -> Result<(), String> {
             c.rows[*row].room = room;
             let rid = c.rooms[room].1.clone();
             let n = &mut c.w.nodes[node];
-            n.advance_clock(*dt);
             let q = format!("mutate {{ {}{{ room_id:$r name:$n }} }}", ent_name(*ent));
             let p = serde_json::json!({"r": rid, "n": text}).to_string();
             let res = n.mutate(&q, Some(&p));
@@ -677,7 +735,8 @@ fn exec_step(c: &mut Ctx, st: &Step) -> Result<(), String> {
                     let v: serde_json::Value = serde_json::from_str(&r).map_err(|e| e.to_string())?;
                     let id = v[ent_name(*ent)]["id"].as_str().ok_or("no id")?.to_string();
                     c.w.log.log(format!("row#{row} id={id}"));
-                    c.rows[*row].id = Some(id);
+                    c.rows[*row].id = Some(id.clone());
+                    c.last_written = Some(id);
                     c.any_op = true;
                     note_tokens(c, text);
                     c.acked.entry(*row).or_default().insert(text.clone());
@@ -698,7 +757,6 @@ fn exec_step(c: &mut Ctx, st: &Step) -> Result<(), String> {
                 return Ok(());
             }
             let n = &mut c.w.nodes[node];
-            n.advance_clock(*dt);
             let q = format!("mutate {{ {}{{ id:$id name:$n }} }}", ent_name(ent));
             let p = serde_json::json!({"id": id, "n": text}).to_string();
             let res = n.mutate(&q, Some(&p));
@@ -708,6 +766,7 @@ fn exec_step(c: &mut Ctx, st: &Step) -> Result<(), String> {
                     c.any_op = true;
                     note_tokens(c, text);
                     c.acked.entry(*row).or_default().insert(text.clone());
+                    c.last_written = Some(id.clone());
                     after_local_write(c, node, room, ent)?;
                 }
                 Err(e) => {
@@ -725,7 +784,6 @@ fn exec_step(c: &mut Ctx, st: &Step) -> Result<(), String> {
                 return Ok(());
             }
             let n = &mut c.w.nodes[node];
-            n.advance_clock(*dt);
             let (q, p) = match text {
                 Some(t) => (
                     "mutate { Person{ id:$id nick:$n } }".to_string(),
@@ -746,7 +804,9 @@ fn exec_step(c: &mut Ctx, st: &Step) -> Result<(), String> {
             } else {
                 if let Some(t) = text {
                     note_tokens(c, t);
+                    c.row_texts.entry(id.clone()).or_default().push(t.clone());
                 }
+                c.last_written = Some(id.clone());
                 after_local_write(c, node, room, ent)?;
             }
         }
@@ -759,7 +819,6 @@ fn exec_step(c: &mut Ctx, st: &Step) -> Result<(), String> {
                 return Ok(());
             }
             let n = &mut c.w.nodes[node];
-            n.advance_clock(*dt);
             let q = if is_pet {
                 "mutate { Person{ id:$id pet:{id:$t} } }"
             } else {
@@ -786,7 +845,6 @@ fn exec_step(c: &mut Ctx, st: &Step) -> Result<(), String> {
                 return Ok(());
             }
             let n = &mut c.w.nodes[node];
-            n.advance_clock(*dt);
             let p = serde_json::json!({"id": id, "t": tid}).to_string();
             let res = n.delete("delete { Person{ $id parents[$t] } }", Some(&p));
             c.w.log.sched(format!("refdel n{node} ok={}", res.is_ok()));
@@ -797,7 +855,8 @@ fn exec_step(c: &mut Ctx, st: &Step) -> Result<(), String> {
                 }
             } else {
                 c.any_op = true;
-                after_local_write(c, node, room, ent)?;
+                let _ = ent;
+                after_local_write(c, node, room, 255)?;
             }
         }
         Step::Delete { node, row, dt } => {
@@ -807,7 +866,6 @@ fn exec_step(c: &mut Ctx, st: &Step) -> Result<(), String> {
                 return Ok(());
             }
             let n = &mut c.w.nodes[node];
-            n.advance_clock(*dt);
             let p = serde_json::json!({"id": id}).to_string();
             let q = format!("delete {{ {}{{ $id }} }}", ent_name(ent));
             let res = n.delete(&q, Some(&p));
@@ -956,7 +1014,8 @@ fn exec_step(c: &mut Ctx, st: &Step) -> Result<(), String> {
         }
         Step::ClockJump { node, by } => {
             let node = *node % c.cfg.nodes;
-            c.w.nodes[node].advance_clock(*by);
+            c.offset[node] += *by;
+            sync_clocks(c);
             c.w.fault(if *by < 0 { "clock_jump_back" } else { "clock_jump_fwd" });
             c.w.log.sched(format!("clockjump n{node} {}", if *by < 0 { "back" } else { "fwd" }));
         }
@@ -1029,8 +1088,24 @@ fn after_pull(c: &mut Ctx, p: usize, _ok: bool) -> Result<(), String> {
     Ok(())
 }
 
-fn after_local_write(c: &mut Ctx, node: usize, _room: usize, _ent: u8) -> Result<(), String> {
+fn after_local_write(c: &mut Ctx, node: usize, room: usize, ent: u8) -> Result<(), String> {
     track_versions(c, node)?;
+    // ent == 255: the write re-dates a row without touching its text (reference deletion): the index is left as it was
+    if has(&c.cfg, "C17") && ent != 255 {
+        // the version of the mutated row stored on this node right after its own mutation
+        if let Some(id) = c.last_written.clone() {
+            c.step_local = Some((node, id.clone()));
+            let d = dump(c, node, room)?;
+            if let Ok(uid) = dv::uid_decode(&id) {
+                for n in &d.nodes {
+                    if n.id == uid.to_vec() {
+                        c.local_sigs.insert((node, crate::kit::hex(&n.signature)));
+                    }
+                }
+            }
+        }
+    }
+    c.last_written = None;
     Ok(())
 }
 
@@ -1041,9 +1116,6 @@ fn dump(c: &Ctx, node: usize, room: usize) -> Result<RoomDump, String> {
 
 /// remember the highest version of each row ever stored anywhere (needed by the C11 end clause)
 fn track_versions(c: &mut Ctx, node: usize) -> Result<(), String> {
-    if !has(&c.cfg, "C11") && !has(&c.cfg, "C03") {
-        return Ok(());
-    }
     for r in 0..c.cfg.rooms {
         let d = dump(c, node, r)?;
         for n in &d.nodes {
@@ -1192,6 +1264,11 @@ fn check_c09(c: &mut Ctx) -> Result<(), String> {
         }
         for (node, d) in &dumps {
             c.w.probe("c09_barrier");
+            if c.w.log.keep {
+                for l in d.daily_lines() {
+                    c.w.log.log(format!("  n{node} {l}"));
+                }
+            }
             for (clause, detail) in oracle::check_daily_against_dump(d) {
                 c.w.violation("C09", &clause, format!("n{node} room{r}: {detail}"));
             }
@@ -1223,6 +1300,8 @@ fn check_c09(c: &mut Ctx) -> Result<(), String> {
             for j in (i + 1)..dumps.len() {
                 let same_content = dumps[i].1.content_lines() == dumps[j].1.content_lines();
                 let same_log = dumps[i].1.daily_lines() == dumps[j].1.daily_lines();
+                // "different rows or deletion records => different logs": references are outside this clause
+                let same_logged = dumps[i].1.logged_lines() == dumps[j].1.logged_lines();
                 if same_content && !same_log {
                     let diff = oracle::first_diff(&dumps[i].1.daily_lines(), &dumps[j].1.daily_lines()).unwrap_or_default();
                     c.w.violation(
@@ -1231,8 +1310,8 @@ fn check_c09(c: &mut Ctx) -> Result<(), String> {
                         format!("room{r}: n{} and n{} store the same rows but different logs: {diff}", dumps[i].0, dumps[j].0),
                     );
                 }
-                if !same_content && same_log && !dumps[i].1.daily.is_empty() {
-                    let diff = oracle::first_diff(&dumps[i].1.content_lines(), &dumps[j].1.content_lines()).unwrap_or_default();
+                if !same_logged && same_log && !dumps[i].1.daily.is_empty() {
+                    let diff = oracle::first_diff(&dumps[i].1.logged_lines(), &dumps[j].1.logged_lines()).unwrap_or_default();
                     c.w.violation(
                         "C09",
                         "different-content-equal-log",
@@ -1243,6 +1322,44 @@ fn check_c09(c: &mut Ctx) -> Result<(), String> {
         }
     }
     Ok(())
+}
+
+fn update_sig_maps(c: &mut Ctx) -> Result<(), String> {
+    while c.sig_maps.len() < c.cfg.nodes {
+        c.sig_maps.push(BTreeMap::new());
+    }
+    for node in 0..c.cfg.nodes {
+        if !up(c, node) {
+            continue;
+        }
+        let mut m = BTreeMap::new();
+        for r in 0..c.cfg.rooms {
+            for n in dump(c, node, r)?.nodes {
+                m.insert(dv::base64_encode(&n.id), crate::kit::hex(&n.signature));
+            }
+        }
+        for (id, sig) in &m {
+            if let Some(old) = c.sig_maps[node].get(id) {
+                if old != sig && c.step_local != Some((node, id.clone())) {
+                    c.synced_over.insert((node, id.clone()));
+                }
+            }
+        }
+        c.sig_maps[node] = m;
+    }
+    c.step_local = None;
+    Ok(())
+}
+
+fn sig_of(c: &Ctx, node: usize, id_b64: &str) -> Result<Option<String>, String> {
+    let id = dv::uid_decode(id_b64).map_err(|e| e.to_string())?;
+    for r in 0..c.cfg.rooms {
+        let d = dump(c, node, r)?;
+        if let Some(n) = d.nodes.iter().find(|n| n.id == id.to_vec()) {
+            return Ok(Some(crate::kit::hex(&n.signature)));
+        }
+    }
+    Ok(None)
 }
 
 fn check_c17(c: &mut Ctx) -> Result<(), String> {
@@ -1269,7 +1386,7 @@ fn check_c17(c: &mut Ctx) -> Result<(), String> {
                     }
                 }
                 let p = serde_json::json!({"s": tok}).to_string();
-                let res = c.w.nodes[node].query(&format!("query {{ {ent}(search($s), order_by(id asc)){{ id }} }}"), Some(&p))?;
+                let res = c.w.nodes[node].query(&format!("query {{ {ent}(search($s)){{ id }} }}"), Some(&p))?;
                 let v: serde_json::Value = serde_json::from_str(&res).map_err(|e| e.to_string())?;
                 let got: BTreeSet<String> = v[ent]
                     .as_array()
@@ -1280,17 +1397,60 @@ fn check_c17(c: &mut Ctx) -> Result<(), String> {
                     .collect();
                 c.w.probe("c17_search");
                 if let Some(m) = expect.difference(&got).next() {
+                    // how did the version this node stores arrive?
+                    let sig = sig_of(c, node, m)?;
+                    let how = match sig {
+                        Some(s) if c.local_sigs.contains(&(node, s.clone())) => "written-locally",
+                        Some(_) => "received-by-synchronisation",
+                        None => "unknown",
+                    };
                     c.w.violation(
                         "C17",
-                        "missed-current-text",
-                        format!("n{node}: search(\"{tok}\") on {ent} misses row {m} whose current text contains it"),
+                        &format!("missed-current-text/{how}"),
+                        format!("n{node}: search(\"{tok}\") on {ent} misses row {m} whose current text contains it ({how})"),
                     );
                 }
                 if let Some(m) = got.difference(&expect).next() {
+                    // did the row itself ever carry the token (old text not removed) or is it another row's text (slot reuse)?
+                    let own = c.rows.iter().enumerate().any(|(i, r)| {
+                        r.id.as_deref() == Some(m.as_str())
+                            && c.acked.get(&i).map(|s| s.iter().any(|t| t.contains(tok.as_str()))).unwrap_or(false)
+                    }) || c.row_texts.get(m).map(|v| v.iter().any(|t| t.contains(tok.as_str()))).unwrap_or(false);
+                    let cur_local = match sig_of(c, node, m)? {
+                        Some(s) => c.local_sigs.contains(&(node, s)),
+                        None => false,
+                    };
+                    // texts of rows this node holds a deletion record for
+                    let mut deleted_here = false;
+                    for r in 0..c.cfg.rooms {
+                        let d = dump(c, node, r)?;
+                        for t in &d.node_del {
+                            let idb = dv::base64_encode(&t.id);
+                            let in_acked = c.rows.iter().enumerate().any(|(i, row)| {
+                                row.id.as_deref() == Some(idb.as_str())
+                                    && c.acked.get(&i).map(|s| s.iter().any(|x| x.contains(tok.as_str()))).unwrap_or(false)
+                            });
+                            let in_nick = c.row_texts.get(&idb).map(|v| v.iter().any(|x| x.contains(tok.as_str()))).unwrap_or(false);
+                            if in_acked || in_nick {
+                                deleted_here = true;
+                            }
+                        }
+                    }
+                    let how = if deleted_here {
+                        "text-of-a-deleted-row-in-a-reused-slot"
+                    } else if own && c.synced_over.contains(&(node, m.clone())) {
+                        "own-previous-text-replaced-by-synchronisation"
+                    } else if own && cur_local {
+                        "own-previous-text-replaced-locally"
+                    } else if own {
+                        "own-previous-text-replaced-by-synchronisation"
+                    } else {
+                        "text-of-a-deleted-row-in-a-reused-slot"
+                    };
                     c.w.violation(
                         "C17",
-                        "stale-match",
-                        format!("n{node}: search(\"{tok}\") on {ent} returns row {m} whose current text does not contain it"),
+                        &format!("stale-match/{how}"),
+                        format!("n{node}: search(\"{tok}\") on {ent} returns row {m} whose current text does not contain it ({how})"),
                     );
                 }
             }
@@ -1393,6 +1553,9 @@ fn finale(c: &mut Ctx) -> Result<(), String> {
     if has(&c.cfg, "C11") && converged {
         check_c11_end(c)?;
     }
+    if has(&c.cfg, "C17") {
+        update_sig_maps(c)?;
+    }
     if converged && (has(&c.cfg, "C09") || has(&c.cfg, "C17")) {
         barrier_checks(c)?;
     }
@@ -1409,7 +1572,46 @@ fn digests(c: &Ctx) -> Result<Vec<String>, String> {
     Ok(v)
 }
 
+/// what the synchronisation protocol compares first: the summary of a room's log
+fn summary(c: &Ctx, node: usize, room: usize) -> Result<String, String> {
+    let conn = c.w.nodes[node].oracle_conn()?;
+    let d = dv::RoomDefinitionLog::get(&c.rooms[room].0, &conn).map_err(|e| e.to_string())?;
+    Ok(match d {
+        Some(d) => format!(
+            "{:?}|{:?}|{:?}",
+            d.last_data_date,
+            d.daily_hash.map(|h| crate::kit::hex(&h)),
+            d.history_hash.map(|h| crate::kit::hex(&h))
+        ),
+        None => "none".into(),
+    })
+}
+
+/// pairs of nodes whose content differs although the summaries the protocol compares are equal
+/// (known finding: the summary covers one entity only); only meaningful when several entities share a room
+fn summary_blind(c: &Ctx) -> Result<Option<String>, String> {
+    if c.cfg.entities < 2 {
+        return Ok(None);
+    }
+    for r in 0..c.cfg.rooms {
+        for i in 0..c.cfg.nodes {
+            for j in (i + 1)..c.cfg.nodes {
+                let (di, dj) = (dump(c, i, r)?, dump(c, j, r)?);
+                if di.content_lines() != dj.content_lines() && summary(c, i, r)? == summary(c, j, r)? {
+                    let diff = oracle::first_diff(&di.content_lines(), &dj.content_lines()).unwrap_or_default();
+                    return Ok(Some(format!("n{i} and n{j} differ on room{r} ({diff}) but their log summaries are equal, so a pull transfers nothing")));
+                }
+            }
+        }
+    }
+    Ok(None)
+}
+
 fn check_c03_equal(c: &mut Ctx) -> Result<(), String> {
+    if let Some(detail) = summary_blind(c)? {
+        c.w.violation("C03", "diverged/summary-blind-multi-entity", detail);
+        return Ok(());
+    }
     for r in 0..c.cfg.rooms {
         let d0 = dump(c, 0, r)?;
         c.w.states.insert(d0.content_digest());
@@ -1421,6 +1623,18 @@ fn check_c03_equal(c: &mut Ctx) -> Result<(), String> {
                 // shape: does the differing row have a tombstone anywhere?
                 let shape = if diff.contains(" ND ") || diff.contains(" ED ") {
                     "deletion-record"
+                } else if table == "E" {
+                    // a reference present on one peer only: was it added with a version of its source row that lost
+                    // against a concurrent version (references travel only with newer source rows)?
+                    let src = diff.split("src=").nth(1).map(|s| s.split(' ').next().unwrap_or("")).unwrap_or("");
+                    let cdate: i64 = diff.split(" c=").nth(1).map(|s| s.split(' ').next().unwrap_or("0")).unwrap_or("0").parse().unwrap_or(0);
+                    let m0 = d0.nodes.iter().find(|n| crate::kit::hex(&n.id) == src).map(|n| (n.mdate, n.signature.clone()));
+                    let m1 = d.nodes.iter().find(|n| crate::kit::hex(&n.id) == src).map(|n| (n.mdate, n.signature.clone()));
+                    match (m0, m1) {
+                        (Some(a), Some(b)) if a == b && cdate < a.0 => "reference-added-with-a-source-version-that-lost",
+                        (Some(a), Some(b)) if a == b => "reference-missing-same-source-version",
+                        _ => "source-row-differs",
+                    }
                 } else {
                     let id = diff.split("id=").nth(1).map(|s| s.split(' ').next().unwrap_or("")).unwrap_or("");
                     let tomb = d0.node_del.iter().chain(d.node_del.iter()).any(|t| crate::kit::hex(&t.id) == id);
@@ -1445,7 +1659,10 @@ fn check_c03_equal(c: &mut Ctx) -> Result<(), String> {
             }
         }
     }
-    // query-level comparison
+    // query-level comparison (only meaningful when the stored content is equal: otherwise it repeats the finding above)
+    if c.w.report.violations.iter().any(|v| v.fingerprint.starts_with("C03/diverged/")) {
+        return Ok(());
+    }
     let qs = [
         "query { Person(order_by(id asc)){ id room_id cdate mdate name nick parents(order_by(id asc)){ id name } pet{ id name } } }",
         "query { Pet(order_by(id asc)){ id room_id cdate mdate name } }",
@@ -1491,6 +1708,10 @@ fn check_c03_equal(c: &mut Ctx) -> Result<(), String> {
 }
 
 fn check_c11_end(c: &mut Ctx) -> Result<(), String> {
+    if let Some(detail) = summary_blind(c)? {
+        c.w.violation("C11", "not-synchronised-after-heal/summary-blind-multi-entity", detail);
+        return Ok(());
+    }
     for r in 0..c.cfg.rooms {
         let mut tomb: BTreeMap<(Vec<u8>, String), i64> = BTreeMap::new();
         let mut dumps = vec![];
